@@ -189,3 +189,35 @@ func (*ZeroA) Naming() string { return "zero-name" }
 func (*ZeroB) Naming() string { return "zero-name" }
 func (*ZeroA) A()             {}
 func (*ZeroB) A()             {}
+
+// Logging post-processors that have an injection point of their own (created while the chain is
+// being built; what they depend on is created with a partial chain).
+type PPDepUnordered struct {
+	ppCore
+	Dep IA `wire:",required=false"`
+}
+type PPDepOrdered struct {
+	ppCore
+	Dep IA `wire:",required=false"`
+}
+
+func (p *PPDepOrdered) Order() int { return p.Ord }
+
+type PPDepPriority struct {
+	ppCore
+	Dep IA `wire:",required=false"`
+}
+
+func (p *PPDepPriority) Order() int { return p.Ord }
+func (p *PPDepPriority) Priority()  {}
+
+func NewPPDep(class int, name string, ord int) any {
+	c := ppCore{Nm: name, Ord: ord, FailOn: map[string]bool{}}
+	switch class {
+	case 1:
+		return &PPDepOrdered{ppCore: c}
+	case 2:
+		return &PPDepPriority{ppCore: c}
+	}
+	return &PPDepUnordered{ppCore: c}
+}
